@@ -127,6 +127,10 @@ func ExportPrivateKey(keyPath string, passphrase []byte) ([]byte, error) {
 	// Derive decryption key
 	var derivedKey []byte
 	if len(data.Salt) == 0 {
+		// The legacy derivation is undefined (division by zero) for an empty passphrase
+		if len(passphrase) == 0 {
+			return nil, fmt.Errorf("failed to derive key: key file has no salt (legacy format) and the passphrase is empty")
+		}
 		derivedKey = fallbackDeriveKey(passphrase, 32)
 	} else {
 		derivedKey = deriveKeyArgon2(passphrase, data.Salt, 32)
@@ -338,6 +342,10 @@ func (s *FileSystemSigner) loadKeys(passphrase []byte) error {
 	// If there's no salt in the file, fallback to older naive deriveKey (for backward-compatibility)
 	var derivedKey []byte
 	if len(data.Salt) == 0 {
+		// The legacy derivation is undefined (division by zero) for an empty passphrase
+		if len(passphrase) == 0 {
+			return fmt.Errorf("failed to derive key: key file has no salt (legacy format) and the passphrase is empty")
+		}
 		// fallback to naive approach
 		derivedKey = fallbackDeriveKey(passphrase, 32)
 	} else {
